@@ -532,8 +532,8 @@ V(id='c14-sub-default-rounding', prop='C14', file='mpmath/libmp/libmpi.py',
   old="    a = mpf_sub(sa, tb, prec, round_floor)", new="    a = mpf_sub(sa, tb, prec)",
   expect='fire:C-R1:mpi_sub')
 V(id='c14-exp-swapped-modes', prop='C14', file='mpmath/libmp/libmpi.py',
-  old="    a = mpf_exp(sa, prec, round_floor)\n    b = mpf_exp(sb, prec, round_ceiling)",
-  new="    a = mpf_exp(sa, prec, round_ceiling)\n    b = mpf_exp(sb, prec, round_floor)",
+  old="    else: a = mpf_outward(mpf_exp, (sa,), prec, round_floor)\n    if sb == fzero: b = fone\n    else: b = mpf_outward(mpf_exp, (sb,), prec, round_ceiling)",
+  new="    else: a = mpf_outward(mpf_exp, (sa,), prec, round_ceiling)\n    if sb == fzero: b = fone\n    else: b = mpf_outward(mpf_exp, (sb,), prec, round_floor)",
   expect='fire:C-R1:mpi_exp')
 V(id='c14-mul-general-nearest', prop='C14', file='mpmath/libmp/libmpi.py',
   old="            a = mpf_pos(a, prec, round_floor)\n            b = mpf_pos(b, prec, round_ceiling)\n    return a, b\n\ndef mpi_square",
@@ -542,11 +542,11 @@ V(id='c14-mul-general-nearest', prop='C14', file='mpmath/libmp/libmpi.py',
 V(id='c14-loggamma-neg-after-round', prop='C14', file='mpmath/libmp/gammazeta.py',
   old="        if type == 3: return mpf_neg(mpf_log(mpf_abs(x), prec, negative_rnd[rnd]))",
   new="        if type == 3: return mpf_neg(mpf_log(mpf_abs(x), prec, rnd))",
-  expect='fire:C-R5:mpf_gamma')
+  expect='silent')   # benign for C14 since 5948c3d: the real interval layer no longer relies on the kernel's directed mode
 V(id='c14-atan2-pi-direction', prop='C14', file='mpmath/libmp/libelefun.py',
   old="            return mpf_neg(mpf_shift(mpf_pi(prec, negative_rnd[rnd]), -1))",
   new="            return mpf_neg(mpf_shift(mpf_pi(prec, rnd), -1))",
-  expect='fire:C-R5:mpf_atan2')
+  expect='silent')   # benign for C14 since 5948c3d (same reason)
 V(id='c14-finalize-inward', prop='C14', file='mpmath/libmp/libmpi.py',
   old="        if bool(v[0]) == (rounding == round_floor):", new="        if bool(v[0]) != (rounding == round_floor):",
   expect='fire:C-R4:finalize')
@@ -1394,14 +1394,14 @@ V(id='c08-mpc-repr-parts-swapped', prop='C08', file='mpmath/ctx_mp_python.py',
   expect='fire:W-R2:_mpc.__repr__')
 
 # ------------------------------------------------ C-R5g -------
-V(id='c14-atan2-four-guard-bits', prop='C14', file='mpmath/libmp/libelefun.py',
+V(id='c14-benign-atan2-four-guard-bits', prop='C14', file='mpmath/libmp/libelefun.py',
   old="""    tquo = mpf_atan(mpf_div(y, x, wp, irnd), wp, irnd)
     if xsign:
         return mpf_add(mpf_pi(wp, irnd), tquo, prec, rnd)""",
   new="""    tquo = mpf_atan(mpf_div(y, x, prec+4), prec+4)
     if xsign:
         return mpf_add(mpf_pi(prec+4), tquo, prec, rnd)""",
-  expect='fire:C-R5g:mpf_atan2')
+  expect='silent')   # benign for C14 since 5948c3d: the interval layer evaluates the kernel at prec+20 and widens by 2**10 units
 
 # ------------------------------------------------ C-R12, C-R13, V-R5, Q-R4 pairing, F-R1 subscripts ----
 V(id='c15-overlap-misses-containment', prop='C15', file='mpmath/libmp/libmpi.py',
@@ -2234,11 +2234,11 @@ V(id='c02-benign-sum-window-wider', prop='C02', file='mpmath/libmp/libmpf.py',
 
 # ---- C15 C-R14t: rectangle functions inherit the unwidened endpoints of the real interval functions ----
 V(id='c15-new-rectangle-function-on-mpi-exp', prop='C15', file='mpmath/libmp/libmpi.py',
-  old="def mpci_cos(x, prec):", new="def mpci_expm(z, prec):\n    a, b = z\n    return mpi_exp(mpi_neg(a), prec), mpi_zero\n\ndef mpci_cos(x, prec):",
+  old="def mpci_cos(x, prec):", new="def mpci_expm(z, prec):\n    (a, b), im = z\n    return (mpf_exp(mpf_neg(b), prec, round_floor), mpf_exp(mpf_neg(a), prec, round_ceiling)), mpi_zero\n\ndef mpci_cos(x, prec):",
   expect='fire:C-R14t:mpci_expm')
 V(id='c15-abs-through-log', prop='C15', file='mpmath/libmp/libmpi.py',
-  old="def mpci_abs(x, prec):\n", new="def mpci_abs(x, prec):\n    if x is None:\n        return mpi_exp(mpi_log(x[0], prec), prec)\n",
-  expect='fire:C-R14t:mpci_abs')
+  old="def mpi_log(s, prec):\n    sa, sb = s\n    # log is monotonic\n    a = mpf_outward(mpf_log, (sa,), prec, round_floor)", new="def mpi_log(s, prec):\n    sa, sb = s\n    # log is monotonic\n    a = mpf_log(sa, prec, round_floor)",
+  expect='fire:C-R14t:mpci_log')
 
 # ---- C43 F-R6 negative-axis cuts (fix 95d3eaf) ----
 V(id='c43-sqrt-bare-cmath', prop='C43', file='mpmath/math2.py',
@@ -2265,3 +2265,28 @@ V(id='c43-acosh-constant-guard-bits', prop='C43', file='mpmath/libmp/libelefun.p
   old="    if tman and texp+tbc < 0:\n        wp += -(texp+tbc)\n", new="", expect='fire:F-R12:mpf_acosh')
 V(id='c43-asin-log1p-fixed-precision', prop='C43', file='mpmath/libmp/libmpc.py',
   old="            wp2 = wp + max(0, -tmag)\n", new="            wp2 = wp + 5\n", expect='fire:F-R12:acos_asin')
+
+# ---- C14 / C15 after repair 5948c3d: transcendental endpoints go through mpf_outward (C-R14, C-R19, C-R14t) ----
+V(id='c14-exp-endpoint-straight-from-kernel', prop='C14', file='mpmath/libmp/libmpi.py',
+  old="    else: a = mpf_outward(mpf_exp, (sa,), prec, round_floor)", new="    else: a = mpf_exp(sa, prec, round_floor)",
+  expect='fire:C-R14:mpi_exp')
+V(id='c15-exp-endpoint-straight-from-kernel', prop='C15', file='mpmath/libmp/libmpi.py',
+  old="    else: a = mpf_outward(mpf_exp, (sa,), prec, round_floor)", new="    else: a = mpf_exp(sa, prec, round_floor)",
+  expect='fire:C-R14t:mpci_exp')
+V(id='c14-outward-factor-inward', prop='C14', file='mpmath/libmp/libmpi.py',
+  old="    if bool(sign) == (rounding == round_floor):\n        p = from_man_exp((MPZ_ONE<<wp) + (MPZ_ONE<<10), -wp)",
+  new="    if bool(sign) != (rounding == round_floor):\n        p = from_man_exp((MPZ_ONE<<wp) + (MPZ_ONE<<10), -wp)",
+  expect='fire:C-R19:mpf_outward')
+V(id='c14-outward-no-extra-bits', prop='C14', file='mpmath/libmp/libmpi.py',
+  old="    wp = prec + 20\n    v = f(*(args + (wp,)))", new="    wp = prec + 4\n    v = f(*(args + (wp,)))",
+  expect='fire:C-R19:mpf_outward')
+V(id='c14-outward-final-rounding-nearest', prop='C14', file='mpmath/libmp/libmpi.py',
+  old="    return mpf_mul(v, p, prec, rounding)\n\ndef mpi_exp", new="    return mpf_mul(v, p, prec, round_nearest)\n\ndef mpi_exp",
+  expect='fire:C-R19:mpf_outward')
+V(id='c14-outward-exact-shortcut-too-wide', prop='C14', file='mpmath/libmp/libmpi.py',
+  old="    if exact_at_integers and args[0][2] >= 0 and bc <= prec:\n", new="    if bc <= prec:\n",
+  expect='fire:C-R19:mpf_outward')
+V(id='c14-benign-outward-more-allowance', prop='C14', file='mpmath/libmp/libmpi.py',
+  old="        p = from_man_exp((MPZ_ONE<<wp) + (MPZ_ONE<<10), -wp)\n    else:\n        p = from_man_exp((MPZ_ONE<<wp) - (MPZ_ONE<<10), -wp)",
+  new="        p = from_man_exp((MPZ_ONE<<wp) + (MPZ_ONE<<12), -wp)\n    else:\n        p = from_man_exp((MPZ_ONE<<wp) - (MPZ_ONE<<12), -wp)",
+  expect='silent')
